@@ -81,15 +81,14 @@ META = {
     "text": ("Coq theorems over parse_core, a token-level transliteration of the Go parser's statement grammar (stmts/getStmt/"
              "gotStmtPipe/callExpr/if/while/for/case/function/subshell/block with openNodes and the Incomplete flag), all token "
              "lists, bash and posix variants: every error raised with the input exhausted inside an open statement is Incomplete "
-             "(C10_eof_errors_incomplete), and a prefix of an accepted token list cut at ANY token boundary parses or fails "
-             "Incomplete (C10_prefix_monotone, mutual induction over the 15 parsing functions; out-of-fuel not excluded). Error "
-             "positions inside the input: proved exhaustively for all token lists up to length 4 only. The model is tied to the "
+             "(C10_eof_errors_incomplete), a prefix of an accepted token list cut at ANY token boundary parses or fails "
+             "Incomplete (C10_prefix_monotone_parse_core, mutual induction over the 15 parsing functions + fuel monotonicity and "
+             "sufficiency), and every error position lies inside the input (C10_error_pos_inside). The model is tied to the "
              "code on every run (Go Parse vs parse_core in the Coq kernel on generated token programs, every cut and mutation: "
              "accept/reject, IsIncomplete, error class, error token). The property over the whole language (5 variants, "
              "here-documents, quotes, substitutions) is checked by search: all line-boundary prefixes of the repo's test "
              "literals and of generated programs, and error positions of invalid inputs."),
     "note": ("PARTIAL w.r.t. the property: the proof covers the core token fragment (no here-documents/quotes inside the model, "
-             "bash and posix variants; fuel alternative not excluded; positions bounded); the whole language is covered by search "
-             "only. Finding fixed: unclosed quoted here-document at EOF was not Incomplete (repo commit cba6385)."),
+             "bash and posix variants); the whole language is covered by search only. Finding fixed: unclosed quoted here-document at EOF was not Incomplete (repo commit cba6385)."),
     "design_ref": "DESIGN.md 4 C10",
 }
